@@ -73,6 +73,15 @@ class C13(Prop):
             grid.add(r.randrange(1440))
         grid = sorted(grid)
         f = self.tools.pretty_next_run
+        # other parts of the library have been used earlier, at another time: a listing that failed to parse and one that parsed
+        from ..ref import replies as _rp
+
+        with clock.virtual_time(now - 3 * 86400 - 4000):
+            for mask in (0x54, 0xFF):     # the failing one last: nothing afterwards tidies up behind it
+                try:
+                    self.parser.get_schedules(_rp.schedules([_rp.schedule_record(0, 0x02, now, now + 60), _rp.schedule_record(1, mask, now, now + 60)]))
+                except Exception:
+                    acc.count("earlier_listing_that_failed")
         with clock.virtual_time(now):
             for days in ALL_SETS:
                 dayset = {self.members[d] for d in days}
